@@ -522,3 +522,9 @@ mod test {
 		assert_eq!(expected_out, encode_int_be_base32(input).collect::<Vec<Fe32>>());
 	}
 }
+
+// verification hook (DESIGN.md of /verif): harnesses live outside the repository and are compiled only under cfg(kani) / cfg(ldk_verif)
+#[cfg(any(kani, ldk_verif))]
+#[allow(missing_docs, dead_code, unused_imports, unused_variables)]
+#[path = "/verif/hooks/invoice_ser.rs"]
+pub mod verif_contracts;
